@@ -304,6 +304,11 @@ fn check_sysvar(dm: &str, seed: u64, index: u64, rep: &mut Report) {
         ("_event.name-script", "_event.name", "<script>_event.name = 'x'</script>".into()),
         ("_event.type", "_event.type", "<assign location=\"_event.type\" expr=\"'x'\"/>".into()),
         ("_event.data", "_event.name", "<assign location=\"_event.data\" expr=\"7\"/>".into()),
+        // locations other elements write to
+        ("_name-idlocation", "_name", "<send event=\"x\" target=\"#_internal\" idlocation=\"_name\"/>".into()),
+        ("_sessionid-idlocation", "_sessionid", "<send event=\"x\" target=\"#_internal\" idlocation=\"_sessionid\"/>".into()),
+        ("_sessionid-foreach-index", "_sessionid", "<foreach array=\"[1,2]\" item=\"it\" index=\"_sessionid\"></foreach>".into()),
+        ("_name-foreach-item", "_name", "<foreach array=\"[1,2]\" item=\"_name\"></foreach>".into()),
     ];
     let (what, read, attempt) = targets[p.below(targets.len() as u64) as usize].clone();
     let strict = dm == "ecmascript" && p.chance(1, 2);
